@@ -89,5 +89,14 @@ CHECKS = {
    text='For set_program, set_verifier, jit_compile, cranelift_compile, execute_program, execute_program_jit, execute_program_cranelift on each of the 4 VM kinds (std and cranelift builds): an Err result leaves every field of the VM untouched; Ok(set_program) stores exactly the new program, after the verifier in force accepted it, and drops the compiled artefacts of the previous program; '
         'set_verifier runs the new verifier on the loaded program before installing it; the compilers compile the loaded program; no method panics; executing with no program is an error. Findings are replayed as short constructive histories through the public API.',
    note='One call from an arbitrary state (no history bound). Stubs as listed in evidence; HashMap/HashSet updates opaque. Trusted: rustc MIR, z3.'),
+ 'C13': dict(level='model_checking', engine='mirsym', design_ref='DESIGN.md 5/C13',
+   technique='symbolic execution of the MIR of assembler::encode / insn / operands_tuple for every entry of the real mnemonic table (hook H3) with symbolic operand lists, and of the numeric-literal closures of asm_parser with the digit string as an unbounded natural; z3 equivalence with the documented encoding',
+   text='Mnemonic table == the documented table (92 entries). For every table entry and 0..4 operands of arbitrary kind and value: encode is Ok iff the operand shape is the documented one and 0<=reg<16, off in i16, imm in i32, and then opcode/dst/src/off/imm are the ones written with unused fields zero (lddw: low half + second slot with the high half); Err otherwise. '
+        'Literal closures: Ok(N) iff N fits, for every magnitude N. Bytes follow through Insn::to_array (C17).',
+   note='The combine grammar (which characters tokenise into which operands, whitespace) is NOT encoded: no solver front end here reaches generic combinator code. Operand::Nil and negative register numbers are never produced by the grammar (assumption).'),
+ 'C14': dict(level='model_checking', engine='mirsym', design_ref='DESIGN.md 5/C14',
+   technique='same extraction as C13; obligation = no panic terminal on any path of the literal closures (digit string = unbounded natural N), of encode/insn for any operands, and of the lddw tail',
+   text='No path of integer/register literal conversion, sign application, operand construction, encode, insn or the lddw second-slot code ends in a panic, for every literal magnitude, sign and operand value; counterexamples are printed as text and fed to assemble() natively.',
+   note='Totality/termination of the combine library on arbitrary characters is outside reach (grammar layer).'),
 }
 NOT_APPLICABLE = {}
